@@ -28,7 +28,7 @@ TIERS = {
     "quick": {"shards": 8, "budget_s": 45},
     "thorough": {"shards": 16, "budget_s": 540},
 }
-MIN_EVENTS = {"quick": 200, "thorough": 3000}
+MIN_EVENTS = {"quick": 5000, "thorough": 3000}
 DECIDING = {"smooth"}
 RULE = (
     "same cases as C03 (families L incl. unit roots and N with log observables, spans 1..16, six mask classes, time-varying stds, "
@@ -288,7 +288,7 @@ def replay(c, case):
 def shard(c):
     install()
     rng = c.rng
-    n = c.scale(150, 4000)
+    n = c.scale(600, 4000)
     for i in range(n):
         if c.out_of_time():
             break
